@@ -378,7 +378,10 @@ def run(ctx):
     extra = [n for n in cs.nodes if any(call_name(c) == "next" for c in n.calls())]
     ok = len(cyc) == 1 and norm(expand(prog, sp, node_assign_value(cyc[0], "iterpart"), calls=True)) == "cycle(%s)" % sp.params[1] and len(key) == 1 and \
         norm(expand(prog, sp, node_assign_value(key[0], "partitions"), calls=True)) == "sorted(%s)" % sp.params[1] and all(
-            ("self.randomStart", True) in fs[n.id] and norm(at(ctx, sp, n.id, c.args[0])) in aliases_of(sp, "self.iterpart")
+            ("self.randomStart", True) in fs[n.id] and (norm(at(ctx, sp, n.id, c.args[0])) in aliases_of(sp, "self.iterpart") or (
+                # the "consume" recipe: next(islice(it, n, n), None) advances `it` by n
+                isinstance(c.args[0], ast.Call) and call_name(c.args[0]) == "islice" and c.args[0].args and
+                norm(at(ctx, sp, n.id, c.args[0].args[0])) in aliases_of(sp, "self.iterpart")))
             for n in extra for c in n.calls() if call_name(c) == "next")
     r.check(ok, "%s#cycle-over-list" % sp.qname, "cycle is not built over the supplied list / extra advances outside the random start", where(sp, sp.node))
 
@@ -389,7 +392,7 @@ def run(ctx):
     fn = ctx.facts(np_, kill_on_suspend=False)
     tp = np_.params[1]
     slot = "self.partitioners[%s]" % tp
-    mk = [n for n in cn.nodes if n.kind == "stmt" and isinstance(n.stmt, ast.Assign) and norm(n.stmt.targets[0]) == slot]
+    mk = [n for n in cn.nodes if n.kind == "stmt" and isinstance(n.stmt, ast.Assign) and any(norm(t_) == slot for t_ in n.stmt.targets)]
     ctors = [(n, c) for n in cn.nodes for c in n.calls() if norm(c.func) == "self.partitioner_class"]
     use = [(n, c) for n in cn.nodes for c in n.calls() if call_name(c) == "partition"]
     plist = "self.client.topic_partitions[%s]" % tp
@@ -400,7 +403,8 @@ def run(ctx):
             return True
         if isinstance(e, ast.Name):
             ds = reaching_defs(cn, nid, e.id)
-            vals = [cn.nodes[d].stmt.value for d in ds if isinstance(cn.nodes[d].stmt, ast.Assign) and len(cn.nodes[d].stmt.targets) == 1]
+            vals = [cn.nodes[d].stmt.value for d in ds if isinstance(cn.nodes[d].stmt, ast.Assign) and all(
+                isinstance(t_, (ast.Name, ast.Subscript, ast.Attribute)) for t_ in cn.nodes[d].stmt.targets)]
             return bool(ds) and len(vals) == len(ds) and all(flows_from(d, v, wanted) for d, v in zip(ds, vals))
         return False
 
